@@ -9,16 +9,45 @@ from ..core import Case
 
 ID = 'C20'
 MANIFEST = {
-    'text': 'TODO',
-    'note': 'TODO',
+    'text': ('Coq theorems (Properties/C20.v, all unbounded, closed under the global context). JOINS: C20_join_rows_pairs/left/right/nodup/pairs_count characterise the '
+             'specification S_join (nested loop + unmatched rows of the preserved side) by membership, multiplicity and cardinality for the four join types and all '
+             'cardinalities; C20_join_many_refines / C20_join_composite_refines: the implementation model of the composite path of Frame._join (match discovery by position, '
+             'Pair/PairLeft/PairRight labels, rows fetched back BY LABEL through both indices, reindex for PairRight rows, template renaming) equals the frame of S_join for '
+             'every table with unique labels; C20_join_single_inner / _left / _left_rows / C20_join_noncomposite_dispatch: the non-composite path is the definition for inner '
+             'joins and, under an explicit guard, for left joins. SHIFTS: C20_shift_in_preserves, C20_shift_in_out_roundtrip, C20_set_unset_roundtrip, C20_set_index_keeps_data '
+             '(whole named columns move between index depths and data; in-and-out restores the index and returns a permutation of the columns). STACK: C20_stack_cells, '
+             'C20_unstack_cells, C20_stack_unstack_roundtrip (original cells back at their labels, fill exactly where the column set is ragged), C20_stack_refines / '
+             'C20_unstack_refines (the dictionary-and-position algorithms equal the label-keyed cell maps). PIVOT: C20_pivot_cell_refines, C20_pivot_refines, C20_pivot_shape, '
+             'C20_pivot_cell_sources. Refuted/C20.v holds the witnesses of the three findings whose faithful model misses the specification. '
+             'Correspondence: API-level differential runs of join_inner/left/right/outer, set_index, set_index_hierarchy, unset_index, relabel_shift_in/out (both axes), '
+             'pivot_stack, pivot_unstack, pivot through the public interface over enumerated block layouts, with the implementation model M and the specification S both '
+             'evaluated inside Coq on the same inputs; kernel-level runs of pivot_index_map and extrapolate_column_fields.'),
+    'note': ('Trusted: Coq kernel; the hand-written models coq/SF/Rel*.v (tied to /repo only by the differential runs of this check, no translated kernel); the harness plumbing '
+             'that turns a Frame into rows / named columns / labels split by the depth mask; the NumPy cast oracle np.array([fill], dtype=column dtype) used by the pivot_unstack '
+             'model (computed by NumPy itself per case). Partial: the non-composite join path is proved only for inner and guarded left joins (right/outer: model + correspondence '
+             '+ refuted witness only); the M = S theorems speak about rows/columns as lists, block layouts are covered by enumeration in the correspondence, not by a theorem; '
+             'dtypes of results are not compared (cells are compared as Python values); np.unique / iter_group sort order is a model parameter (Permutation hypothesis); '
+             'rehierarch and set_index_hierarchy(reorder_for_hierarchy=True) are only observed (row multiset), not modelled. Four known findings are listed in known/C20.jsonl.'),
     'technique': 'refinement of an implementation model to a relational specification (Coq) + differential runs of both inside Coq',
 }
 PROPERTY_FILES = ['Properties/C20.v']
 REFUTED_FILES = ['Refuted/C20.v']
-MODEL_FILES = ['SF/RelJoin.v', 'SF/RelJoinVal.v', 'SF/RelShift.v', 'SF/RelShiftVal.v', 'SF/RelStack.v', 'SF/RelStackVal.v', 'SF/RelPivot.v', 'SF/RelPivotVal.v', 'Proofs/RelExamples.v']
-IMPORTS = 'Require Import SF.Prelude SF.Dtype SF.Value SF.RelJoin SF.RelJoinVal SF.RelShift SF.RelShiftVal SF.RelStack SF.RelStackVal SF.RelPivot SF.RelPivotVal.'
-RULE = 'TODO'
-ASSUMPTIONS = []
+MODEL_FILES = ['Gen/Gen_c20.v', 'SF/RelJoin.v', 'SF/RelJoinVal.v', 'SF/RelShift.v', 'SF/RelShiftVal.v', 'SF/RelStack.v', 'SF/RelStackVal.v', 'SF/RelPivot.v', 'SF/RelPivotVal.v', 'Proofs/RelExamples.v']
+IMPORTS = 'Require Import SF.Prelude SF.Dtype SF.Value Gen.Gen_c20 SF.RelJoin SF.RelJoinVal SF.RelShift SF.RelShiftVal SF.RelStack SF.RelStackVal SF.RelPivot SF.RelPivotVal.'
+RULE = ('exhaustive strata: every key assignment of <=2 (quick) / <=3 (thorough) rows per side over two key values x 4 join types x composite on/off; one many-to-many '
+        'and one inner join through every block layout of both sides; every (index key, column key) assignment over {a,b}x{x,y} for <=3/4 rows x sum/len/first through '
+        'pivot; relabel_shift_in for every ordered key selection of <=2 of 4 columns on auto / named / hierarchical indices in every layout (thorough), each followed by '
+        'relabel_shift_out of the new depths (round trip) and of other depth selections; set_index / set_index_hierarchy / unset_index on every column incl. repeated values '
+        '(refusal); pivot_stack over flat / rectangular / ragged / depth-3 columns x every depth selection x 6 fill values, each followed by pivot_unstack of the new depths '
+        '(round trip); pivot_unstack over rectangular and ragged indices; random streams for joins (1-2 key fields from columns and/or index depths, auto / disjoint / '
+        'overlapping / equal / hierarchical labels, fills of other types, 4 template pairs, composite_index_fill_value) and pivots (1-2 index / 0-2 column / 1-2 data fields, '
+        'function maps). Malformed stream: absent keys, depth out of range, colliding output names, non-unique / non tree-ordered index requests. A case is non-trivial when '
+        'both join sides have rows / a pivot pair repeats / a frame has >1 column; distinct = distinct JSON of the case description.')
+ASSUMPTIONS = ['labels of one index are unique and compared by hash/== (C02); generators never mix 1 / 1.0 / True as labels',
+               'key cells are compared as Python values (numpy == on the coerced key arrays agrees with Python == on ints, exact floats, bools, strs, None)',
+               'np.unique / iter_group_items order = ascending ints, code-point order of ASCII strings, lexicographic tuples (model val_cmp)',
+               'np.array([fill], dtype=d)[0] is what np.array(values, dtype=d) stores for a fill cell (NumPy cast oracle, evaluated by NumPy per case)',
+               'float cells are exact dyadic rationals; aggregation functions are modelled over integer cells only']
 TRUSTED = []
 EXHAUSTIVE = {'quick': False, 'thorough': False}
 TRANSLATED = []
@@ -26,6 +55,119 @@ TRANSLATED = []
 F_JOIN = 'C20-join-noncomposite-label-lookup'
 
 NAN = float('nan')
+
+
+# ----------------------------------------------------------------------------- generated constants
+GENERATED_FILES = ['Gen/Gen_c20.v']
+JOIN_ENTRY = ('join_inner', 'join_left', 'join_right', 'join_outer')
+
+
+def generate(repo):
+    '''Keyword defaults and the join-type dispatch of the public join / stack entry points, read from the AST of
+    static_frame/core/frame.py on every run (fail closed).  Properties/C20.v proves from the regenerated text that
+    every join entry point defaults to the composite path (the one proved equal to the relational definition) and
+    hands its own join type to Frame._join.'''
+    import ast
+    import os
+    path = os.path.join(repo, 'static_frame/core/frame.py')
+    with open(path) as fh:
+        tree = ast.parse(fh.read())
+    frame = next(n for n in tree.body if isinstance(n, ast.ClassDef) and n.name == 'Frame')
+    funcs = {n.name: n for n in frame.body if isinstance(n, ast.FunctionDef)}
+
+    def kwdefault(fn, name):
+        node = funcs[fn]
+        for a, d in zip(node.args.kwonlyargs, node.args.kw_defaults):
+            if a.arg == name:
+                return d
+        for a, d in zip(reversed(node.args.args), reversed(node.args.defaults)):
+            if a.arg == name:
+                return d
+        raise ValueError(f'{fn} has no keyword {name}')
+
+    def const(fn, name, types):
+        d = kwdefault(fn, name)
+        if isinstance(d, ast.UnaryOp) and isinstance(d.op, ast.USub) and isinstance(d.operand, ast.Constant):
+            v = -d.operand.value
+        elif isinstance(d, ast.Constant):
+            v = d.value
+        else:
+            raise ValueError(f'default of {fn}({name}) is not a constant: {ast.dump(d)[:80]}')
+        if not isinstance(v, types) or (types is int and isinstance(v, bool)):
+            raise ValueError(f'default of {fn}({name}) has an unexpected type: {v!r}')
+        return v
+
+    def is_np_nan(fn, name):
+        d = kwdefault(fn, name)
+        return isinstance(d, ast.Attribute) and d.attr == 'nan' and isinstance(d.value, ast.Name) and d.value.id == 'np'
+
+    composite = [(fn, const(fn, 'composite_index', bool)) for fn in ('_join',) + JOIN_ENTRY]
+    templates = [(fn, const(fn, 'left_template', str), const(fn, 'right_template', str)) for fn in ('_join',) + JOIN_ENTRY]
+    nanfill = [(fn, is_np_nan(fn, 'fill_value')) for fn in ('_join',) + JOIN_ENTRY + ('pivot', 'pivot_stack', 'pivot_unstack')]
+    cifv_none = [(fn, const(fn, 'composite_index_fill_value', type(None)) is None) for fn in ('_join',) + JOIN_ENTRY]
+    depth = [(fn, const(fn, 'depth_level', int)) for fn in ('pivot_stack', 'pivot_unstack')]
+    dispatch = []
+    for fn in JOIN_ENTRY:
+        rets = [n for n in ast.walk(funcs[fn]) if isinstance(n, ast.Return)]
+        if len(rets) != 1 or not isinstance(rets[0].value, ast.Call):
+            raise ValueError(f'{fn}: expected a single `return self._join(...)`')
+        call = rets[0].value
+        if not (isinstance(call.func, ast.Attribute) and call.func.attr == '_join'):
+            raise ValueError(f'{fn} does not return self._join(...)')
+        kws = {k.arg: k.value for k in call.keywords}
+        jt = kws.get('join_type')
+        if not (isinstance(jt, ast.Attribute) and isinstance(jt.value, ast.Name) and jt.value.id == 'Join'):
+            raise ValueError(f'{fn}: join_type is not Join.<X>')
+        # every other keyword must be passed through unchanged
+        for k, v in kws.items():
+            if k in ('join_type',):
+                continue
+            if k == 'other':
+                if not (isinstance(v, ast.Name) and v.id == 'other'):
+                    raise ValueError(f'{fn}: other is not passed through')
+            elif not (isinstance(v, ast.Name) and v.id == k):
+                raise ValueError(f'{fn}: keyword {k} is not passed through unchanged')
+        dispatch.append((fn, jt.attr))
+    # pivot_unstack: is `dtype` (re)assigned from the source column inside the branch that found a value?
+    items = next((n for n in ast.walk(funcs['pivot_unstack']) if isinstance(n, ast.FunctionDef) and n.name == 'items'), None)
+    if items is None:
+        raise ValueError('pivot_unstack has no inner generator items()')
+    found_branches = [n for n in ast.walk(items) if isinstance(n, ast.If) and isinstance(n.test, ast.Compare)
+                      and isinstance(n.test.ops[0], ast.In) and isinstance(n.test.left, ast.Name) and n.test.left.id == 'target']
+    if len(found_branches) != 1:
+        raise ValueError('pivot_unstack.items(): expected one `if target in target_map` branch')
+    def assigns_dtype(nodes):
+        return [a for st in nodes for a in ast.walk(st) if isinstance(a, ast.Assign) and len(a.targets) == 1
+                and isinstance(a.targets[0], ast.Name) and a.targets[0].id == 'dtype']
+    in_found = assigns_dtype(found_branches[0].body)
+    in_else = assigns_dtype(found_branches[0].orelse)
+    if len(in_else) != 1:
+        raise ValueError('pivot_unstack.items(): the fill branch no longer assigns dtype')
+    if in_found:
+        if not (len(in_found) == 1 and isinstance(in_found[0].value, ast.Name) and in_found[0].value.id == 'dtype_src_col'):
+            raise ValueError('pivot_unstack.items(): unexpected dtype assignment in the found branch')
+        unstack_last_group = True
+    else:
+        # repaired shape: dtype starts as the source dtype before the loop and is only widened
+        widen = in_else[0].value
+        if not (isinstance(widen, ast.Call) and getattr(widen.func, 'id', None) == 'resolve_dtype' and isinstance(widen.args[0], ast.Name) and widen.args[0].id == 'dtype'):
+            raise ValueError('pivot_unstack.items(): dtype is neither taken from the last group nor widened monotonically')
+        unstack_last_group = False
+    b = lambda v: 'true' if v else 'false'
+    lines = ['(* GENERATED by tools/sfv/props/c20.py generate() from static_frame/core/frame.py -- do not edit *)',
+             'Require Import SF.Prelude.', 'Local Open Scope string_scope.', '',
+             'Definition gen_join_composite_default : list (string * bool) := ' + lit.lst([f'({lit.s(f)}, {b(v)})' for f, v in composite]) + '.',
+             'Definition gen_join_templates_default : list (string * (string * string)) := ' + lit.lst([f'({lit.s(f)}, ({lit.s(l_)}, {lit.s(r_)}))' for f, l_, r_ in templates]) + '.',
+             'Definition gen_fill_default_is_nan : list (string * bool) := ' + lit.lst([f'({lit.s(f)}, {b(v)})' for f, v in nanfill]) + '.',
+             'Definition gen_join_cifv_default_is_none : list (string * bool) := ' + lit.lst([f'({lit.s(f)}, {b(v)})' for f, v in cifv_none]) + '.',
+             'Definition gen_depth_level_default : list (string * Z) := ' + lit.lst([f'({lit.s(f)}, {lit.z(v)})' for f, v in depth]) + '.',
+             'Definition gen_join_dispatch : list (string * string) := ' + lit.lst([f'({lit.s(f)}, {lit.s(v)})' for f, v in dispatch]) + '.',
+             'Definition gen_unstack_dtype_from_last_group : bool := ' + b(unstack_last_group) + '.',
+             '',
+             'Definition gen_composite (name : string) : bool :=',
+             '  match find (fun p => String.eqb name (fst p)) gen_join_composite_default with Some p => snd p | None => false end.',
+             '']
+    return {'Gen/Gen_c20.v': '\n'.join(lines)}
 
 
 # ----------------------------------------------------------------------------- helpers
@@ -129,7 +271,7 @@ def key_of(label, row, columns, depth_level, key_columns):
 
 
 def trows_lit(labels, keys, rows):
-    return lit.lst([f'(mk_trow {lit.val(lab)} {lit.vlist(k)} {lit.vlist(r)})' for lab, k, r in zip(labels, keys, rows)])
+    return lit.lst([f'(vt {lit.val(lab)} {lit.vlist(k)} {lit.vlist(r)})' for lab, k, r in zip(labels, keys, rows)])
 
 
 def join_dom(jt, composite, llabels, lkeys, rlabels, rkeys):
@@ -145,8 +287,12 @@ def join_dom(jt, composite, llabels, lkeys, rlabels, rkeys):
     c1 = all(_eq(llabels[i], rlabels[js[0]]) for i, js in enumerate(lm) if js)
     c2 = all(not any(_eq(llabels[i], x) for x in rlabels) for i, js in enumerate(lm) if not js)
     c3 = all(not any(_eq(rlabels[j], x) for x in llabels) for j, is_ in enumerate(rm) if not is_)
-    ok = {'left': c2, 'right': c1 and c3, 'outer': c1 and c2 and c3}[jt]
-    return many, ok
+    # outer: the result labels are left_index.union(right_index); mixing int and float labels coerces them and the
+    # label lookups back into the source indices (auto-integer fast path) then miss
+    kinds = lambda labs: {('num-' + type(x).__name__) if isinstance(x, (int, float)) else 'other' for x in labs}
+    c4 = not (llabels and rlabels and kinds(llabels) != kinds(rlabels) and (kinds(llabels) | kinds(rlabels)) <= {'num-int', 'num-float', 'num-bool'})
+    ok = {'left': c2, 'right': c1 and c3, 'outer': c1 and c2 and c3 and c4}[jt]
+    return many, (ok if jt != 'outer' or c4 else None)
 
 
 def obs_join_lit(f):
@@ -154,15 +300,15 @@ def obs_join_lit(f):
     idx = []
     for x in (f.index.values if f.index.depth == 1 else list(f.index)):
         if isinstance(x, Pair):
-            idx.append(f'(inr ({lit.val(_py(x[0]))}, {lit.val(_py(x[1]))}))')
+            idx.append(f'(ir {lit.val(_py(x[0]))} {lit.val(_py(x[1]))})')
         else:
-            idx.append(f'(inl {lit.val(_py(tuple(x)) if isinstance(x, (tuple, np.ndarray)) else _py(x))})')
+            idx.append(f'(il {lit.val(_py(tuple(x)) if isinstance(x, (tuple, np.ndarray)) else _py(x))})')
     names = [lit.s(str(c)) for c in f.columns.values.tolist()]
     cols = [lit.vlist(lit.array_vals(f.iloc[:, j].values)) for j in range(f.shape[1])]
-    return f'(mk_jframe {lit.lst(idx)} {lit.lst(names)} {lit.lst(cols)})'
+    return f'(vjf {lit.lst(idx)} {lit.lst(names)} {lit.lst(cols)})'
 
 
-def join_case(ctx, stratum, jt, composite, spec_l, spec_r, kw, fill, templates, cifv=None):
+def join_case(ctx, stratum, jt, composite, spec_l, spec_r, kw, fill, templates, cifv=None, defaults=False):
     '''spec_x = (columns, cols, layout, index); kw: left_depth_level/left_columns/right_depth_level/right_columns.'''
     lf = build_frame(spec_l[0], spec_l[1], spec_l[2], spec_l[3])
     rf = build_frame(spec_r[0], spec_r[1], spec_r[2], spec_r[3])
@@ -173,9 +319,18 @@ def join_case(ctx, stratum, jt, composite, spec_l, spec_r, kw, fill, templates, 
     call = dict(kw, left_template=templates[0], right_template=templates[1], fill_value=fill, composite_index=composite)
     if cifv is not None:
         call['composite_index_fill_value'] = cifv
-    out, val = lit.res(lambda: getattr(lf, 'join_' + jt)(rf, **call), obs_join_lit)
+    if defaults:      # only the key selection is passed: every other keyword takes the default read from the source (Gen/Gen_c20.v)
+        call = dict(kw)
+        composite, fill, templates, cifv = True, NAN, ('{}', '{}'), None
+    try:
+        val = getattr(lf, 'join_' + jt)(rf, **call)
+        out = f'(OkJ {obs_join_lit(val)})'
+    except Exception as e:  # noqa
+        val = e
+        out = f'(ErrJ {lit.s(lit.err_class(e))})'
     many, aligned = join_dom(jt, composite, llabels, lkeys, rlabels, rkeys)
-    args = (f'{JT[jt]} {lit.b(composite)} {lit.val(cifv)} {lit.val(fill)} {_tmpl(templates[0])} {_tmpl(templates[1])} '
+    comp_term = f'(gen_composite {lit.s("join_" + jt)})' if defaults else lit.b(composite)
+    args = (f'{JT[jt]} {comp_term} {lit.val(cifv)} {lit.val(fill)} {_tmpl(templates[0])} {_tmpl(templates[1])} '
             f'{lit.lst([lit.s(str(c)) for c in spec_l[0]])} {lit.lst([lit.s(str(c)) for c in spec_r[0]])} '
             f'{trows_lit(llabels, lkeys, lrows)} {trows_lit(rlabels, rkeys, rrows)}')
     card = 'many' if many else 'one-to-one'
@@ -185,6 +340,10 @@ def join_case(ctx, stratum, jt, composite, spec_l, spec_r, kw, fill, templates, 
     tags = {'op': 'join', 'join_type': jt, 'composite': composite, 'card': card}
     if not aligned:
         tags['finding'] = F_JOIN
+    m_term = f'join_m_ok {args} {out}'
+    if aligned is None:          # label coercion by the index union: not modelled
+        m_term = None
+        ctx.count('join:outer-noncomposite-mixed-label-kinds')
     desc = {'call': f'left.join_{jt}(right, **kw)', 'kw': {k: _j(v) for k, v in call.items()},
             'left': {'columns': _j(spec_l[0]), 'cols': _j(spec_l[1]), 'layout': zoo.layout_str(zoo.layout_of(lf)), 'index': _j(spec_l[3])},
             'right': {'columns': _j(spec_r[0]), 'cols': _j(spec_r[1]), 'layout': zoo.layout_str(zoo.layout_of(rf)), 'index': _j(spec_r[3])},
@@ -192,7 +351,7 @@ def join_case(ctx, stratum, jt, composite, spec_l, spec_r, kw, fill, templates, 
                         {'index': _j([_py(tuple(x)) if isinstance(x, tuple) else _py(x) for x in val.index]), 'columns': _j(val.columns.values.tolist()),
                          'rows': _j([list(r) for r in val.iter_tuple(axis=1)])}}
     nontrivial = len(llabels) > 0 and len(rlabels) > 0
-    return Case(stratum, desc, m=f'join_m_ok {args} {out}', s=f'join_s_ok {args} {out}', tags=tags, nontrivial=nontrivial)
+    return Case(stratum, desc, m=m_term, s=f'join_s_ok {args} {out}', tags=tags, nontrivial=nontrivial)
 
 
 def join_exhaustive(ctx):
@@ -213,7 +372,7 @@ def join_random(ctx):
     '''Random joins: 1-2 key fields taken from columns and/or index depths, repeated and unique keys, all block
     layouts, fills of other types, both templates, auto / labelled / overlapping / hierarchical indices.'''
     rng = ctx.rng
-    for _ in range(ctx.n(250, 6000)):
+    for _ in range(ctx.n(250, 4000)):
         nl, nr = rng.randint(0, 4), rng.randint(0, 4)
         nkeys = rng.choice([1, 1, 2])
         pool = rng.choice([[1, 2], [1, 2, 3, 4, 5, 6], ['a', 'b', 'c'], [True, False], [0.5, 1.5, 2.5]])
@@ -297,6 +456,17 @@ def join_random(ctx):
             ctx.count('join:skipped-literal')
 
 
+def join_defaults(ctx):
+    """Joins called with the key selection only; the model takes composite_index from the regenerated defaults."""
+    rng = ctx.rng
+    for _ in range(ctx.n(24, 300)):
+        nl, nr = rng.randint(1, 4), rng.randint(1, 4)
+        lcols = [[rng.choice('abc') for _ in range(nl)], [10 + i for i in range(nl)]]
+        rcols = [[rng.choice('abd') for _ in range(nr)], [20 + i for i in range(nr)]]
+        yield join_case(ctx, 'api:join-defaults', rng.choice(list(JT)), True, (('k', 'x'), lcols, None, None), (('kk', 'y'), rcols, None, rng.choice([None, list('wxyz')[:nr]])),
+                        {'left_columns': 'k', 'right_columns': 'kk'}, NAN, ('{}', '{}'), defaults=True)
+
+
 def join_layouts(ctx):
     '''One many-to-many join and one inner join through EVERY block layout of both sides.'''
     lcols = [[1, 2, 1, 3], [10, 11, 12, 13], [5, 6, 7, 8], ['a', 'b', 'c', 'd']]
@@ -323,7 +493,7 @@ def lframe_lit(f, axis=0):
     labels = lit.labels(f.columns)
     cols = [(labels[j], lit.array_vals(f.iloc[:, j].values) if n else []) for j in range(f.shape[1])]
     enc = lambda cs: lit.lst([f'({lit.val(_py(nm))}, {lit.vlist(vs)})' for nm, vs in cs])
-    return f'(mk_lframe {n} {enc(levels)} {enc(cols)})', {'index_names': _j(names), 'index': _j(lit.labels(f.index)), 'columns': _j(labels),
+    return f'(vlf {n} {enc(levels)} {enc(cols)})', {'index_names': _j(names), 'index': _j(lit.labels(f.index)), 'columns': _j(labels),
                                                            'cols': _j([vs for _, vs in cols])}
 
 
@@ -358,11 +528,11 @@ def shop_case(ctx, stratum, f, op, axis=0, extra=None):
     tlit, tdesc = lframe_lit(f, axis)
     try:
         g = apply_op(f, op, axis)
-        out = f'(Ok {lframe_lit(g, axis)[0]})'
+        out = f'(OkL {lframe_lit(g, axis)[0]})'
         odesc = lframe_lit(g, axis)[1]
     except Exception as e:  # noqa
         g = None
-        out = f'(Err {lit.s(lit.err_class(e))})'
+        out = f'(ErrL {lit.s(lit.err_class(e))})'
         odesc = type(e).__name__ + ': ' + str(e)[:100]
     ctx.count(f'shift:{op[0]}', f'shift:axis={axis}', f'shift:index-depth={f.index.depth if axis == 0 else f.columns.depth}',
               f'shift:layout:{zoo.layout_str(zoo.layout_of(f))}', 'shift:raised' if g is None else 'shift:ok')
@@ -424,7 +594,7 @@ def shift_cases(ctx):
         yield shop_case(ctx, 'api:relabel_shift_in', f, ('shift_in', ['zz'], False))[0]      # malformed: absent key
         yield shop_case(ctx, 'api:relabel_shift_out', f, ('shift_out', [depth + 2], False))[0]   # malformed: depth out of range
     # axis 1: rows move into the column labels
-    for f, names in shift_frames(ctx, 3, False):
+    for f, names in shift_frames(ctx, 3, exhaustive):
         if f.index.depth > 1 or f.index.name is None:     # Index.names stringifies non-string names: string row labels only
             continue
         rows = lit.labels(f.index)
@@ -505,15 +675,16 @@ def sframe_lit(rows, cols, cells, split=None):
     pr = lambda x: f'({_tl(x[0])}, {_tl(x[1])})'
     rl = lit.lst([pr(r) if split == 'rows' else _tl(r) for r in rows])
     cl = lit.lst([pr(c) if split == 'cols' else _tl(c) for c in cols])
-    return f'(mk_sframe {rl} {cl} {lit.lst([lit.vlist(r) for r in cells])})'
+    ctor = {None: 'vsf', 'cols': 'vsf_c', 'rows': 'vsf_r'}[split]
+    return f'({ctor} {rl} {cl} {lit.lst([lit.vlist(r) for r in cells])})'
 
 
 def obs_sframe(fn):
     try:
         g = fn()
     except Exception as e:  # noqa
-        return f'(Err {lit.s(lit.err_class(e))})', e
-    return f'(Ok {sframe_lit(*frame_parts(g))})', g
+        return f'(ErrS {lit.s(lit.err_class(e))})', e
+    return f'(OkS {sframe_lit(*frame_parts(g))})', g
 
 
 def fdesc(f):
@@ -735,7 +906,7 @@ def pivot_case(ctx, stratum, names, cols, layout, index_fields, columns_fields, 
     out, g = obs_sframe(lambda: f.pivot(ifld, cfld, dfld, **kw))
     show_d = len(data_fields) > 1 or not columns_fields
     show_f = not single
-    rows_lit = lit.lst([f'(mk_prow {_tl(i)} {_tl(c)} {lit.vlist(d)})' for i, c, d in rows])
+    rows_lit = lit.lst([f'(vpr {_tl(i)} {_tl(c)} {lit.vlist(d)})' for i, c, d in rows])
     funcs_lit = lit.lst([f'({lit.val("" if single else nm)}, {AGG[nm][0]})' for nm in funcs])
     args = (f'{lit.b(bool(columns_fields))} {lit.val(fill)} {lit.b(show_d)} {lit.b(show_f)} {lit.vlist(list(data_fields))} '
             f'{funcs_lit} {rows_lit}')
@@ -771,7 +942,7 @@ def pivot_exhaustive(ctx):
 
 def pivot_random(ctx):
     rng = ctx.rng
-    for _ in range(ctx.n(150, 4000)):
+    for _ in range(ctx.n(150, 3000)):
         n = rng.randint(1, 6)
         ni, nc, nd = rng.choice([1, 1, 2]), rng.choice([0, 1, 1, 2]), rng.choice([1, 1, 2])
         kind = rng.choice(['str', 'int'])
@@ -900,6 +1071,7 @@ def reorder_cases(ctx):
 def cases(ctx):
     yield from join_exhaustive(ctx)
     yield from join_layouts(ctx)
+    yield from join_defaults(ctx)
     yield from join_random(ctx)
     yield from shift_cases(ctx)
     yield from set_index_cases(ctx)
